@@ -232,6 +232,15 @@ class Builder:
         if flags & re.IGNORECASE:
             raise RxUnsupported('IGNORECASE')
 
+    def _literal(self, a, text, b):
+        """a --text--> b, one edge per character."""
+        n = self.nfa
+        cur = a
+        for i, ch in enumerate(text):
+            nxt = b if i == len(text) - 1 else n.new()
+            n.edge(cur, frozenset([ch]), nxt)
+            cur = nxt
+
     def seq(self, sub, first=False):
         n = self.nfa
         s = n.new()
@@ -262,7 +271,7 @@ class Builder:
         elif op == C.SUBPATTERN:
             gid = av[0]
             if gid is not None and gid in self.groupvals:
-                n.edge(a, frozenset([self.groupvals[gid]]), b)
+                self._literal(a, self.groupvals[gid], b)
             else:
                 x, y = self.seq(av[3], leading)
                 n.edge(a, EPS, x)
@@ -309,7 +318,7 @@ class Builder:
                 return a, b
             if av not in self.groupvals:
                 raise RxUnsupported('backreference to a group that is not a single character')
-            n.edge(a, frozenset([self.groupvals[av]]), b)
+            self._literal(a, self.groupvals[av], b)
         elif op in (C.ASSERT, C.ASSERT_NOT) and av[0] > 0 and (_single_char_any(av[1], self.alphabet, self.dotall) is not None):
             # one-character look-ahead: a restriction on the next character to be consumed
             cs = _single_char_any(av[1], self.alphabet, self.dotall)
@@ -331,6 +340,57 @@ class Builder:
         return a, b
 
 
+def _finite_values(sub, alphabet, limit=8):
+    """The strings a sub-pattern can match, if there are at most `limit` of them and it is built from literals,
+    alternation and bounded repetition only; None otherwise."""
+    def seq(items):
+        out = {''}
+        for it_ in items:
+            vals = one(it_)
+            if vals is None:
+                return None
+            out = {a + b for a in out for b in vals}
+            if len(out) > limit:
+                return None
+        return out
+
+    def one(item):
+        op, av = item
+        if op == C.LITERAL:
+            return {chr(av)} if chr(av) in alphabet else None
+        if op == C.IN:
+            cs = in_to_set(av, alphabet)
+            return set(cs) if 0 < len(cs) <= limit else None
+        if op == C.SUBPATTERN:
+            return seq(av[3])
+        if op == C.BRANCH:
+            out = set()
+            for br in av[1]:
+                v = seq(br)
+                if v is None:
+                    return None
+                out |= v
+            return out if len(out) <= limit else None
+        if op in (C.MAX_REPEAT, C.MIN_REPEAT):
+            lo, hi, body = av
+            if hi == C.MAXREPEAT or hi > 4:
+                return None
+            b = seq(body)
+            if b is None:
+                return None
+            out = set()
+            for k in range(lo, hi + 1):
+                cur = {''}
+                for _ in range(k):
+                    cur = {x + y for x in cur for y in b}
+                    if len(cur) > limit:
+                        return None
+                out |= cur
+            return out if len(out) <= limit else None
+        return None
+    return seq(sub)
+
+
 def build_nfas(pattern, flags=0, alphabet=ALPHABET_CORE, relax_backrefs=False):
     """One NFA per valuation of single-character back-referenced groups. With relax_backrefs, a
     back-reference to any other group is replaced by that group's own pattern - a superset of the
@@ -342,6 +402,13 @@ def build_nfas(pattern, flags=0, alphabet=ALPHABET_CORE, relax_backrefs=False):
     for g in refs:
         sub = _find_group(tree, g)
         cs = _single_char_set(sub, frozenset(alphabet)) if sub is not None else None
+        if cs is None and sub is not None:
+            # a group with a handful of possible values (e.g. \\${1,2}): one automaton per value, the
+            # back-reference is that value
+            fv = _finite_values(sub, frozenset(alphabet))
+            if fv and '' not in fv:
+                choices = [{**c, g: v} for c in choices for v in sorted(fv)]
+                continue
         if cs is None:
             if relax_backrefs and sub is not None:
                 relaxed[g] = sub
